@@ -49,25 +49,23 @@ theorem unpackLoop_complete (fuel : Nat) : ∀ (i : Nat) (rem : List Nat) (ads :
   | succ fuel ih =>
     intro i rem ads mvs hl hf
     -- the part of the loop body after the `removes_next` test
-    have body : ∀ (rem' : List Nat), rem'.length ≤ rem.length →
+    have body : ∀ (rem' : List Nat) (ads : List DiffOpAdd) (mvs : List DiffOpMove),
+        (∀ m ∈ mvs, 1 ≤ m.len) → sumLens mvs + ads.length + rem'.length ≤ fuel + 1 →
         (match ads, mvs with
           | a :: as, m :: ms =>
-            if a.at_ == i then
-              let r := unpackLoop fuel (i + 1) rem' as (m :: ms)
-              (r.1, a :: r.2)
+            if (a.at_ == i) = true then
+              ((unpackLoop fuel (i + 1) rem' as (m :: ms)).fst,
+                a :: (unpackLoop fuel (i + 1) rem' as (m :: ms)).snd)
             else
-              let s := takeSingle m ms
-              let r := unpackLoop fuel (i + 1) rem' (a :: as) s.2
-              (s.1 :: r.1, r.2)
+              ((takeSingle m ms).fst :: (unpackLoop fuel (i + 1) rem' (a :: as) (takeSingle m ms).snd).fst,
+                (unpackLoop fuel (i + 1) rem' (a :: as) (takeSingle m ms).snd).snd)
           | a :: as, [] =>
-            let r := unpackLoop fuel (i + 1) rem' as []
-            (r.1, a :: r.2)
+            ((unpackLoop fuel (i + 1) rem' as []).fst, a :: (unpackLoop fuel (i + 1) rem' as []).snd)
           | [], m :: ms =>
-            let s := takeSingle m ms
-            let r := unpackLoop fuel (i + 1) rem' [] s.2
-            (s.1 :: r.1, r.2)
+            ((takeSingle m ms).fst :: (unpackLoop fuel (i + 1) rem' [] (takeSingle m ms).snd).fst,
+              (unpackLoop fuel (i + 1) rem' [] (takeSingle m ms).snd).snd)
           | [], [] => ([], [])) = (mvs.flatMap singles, ads) := by
-      intro rem' hrem
+      intro rem' ads mvs hl hf
       have single : ∀ (m : DiffOpMove) (ms : List DiffOpMove) (ads' : List DiffOpAdd),
           (∀ m' ∈ m :: ms, 1 ≤ m'.len) →
           sumLens (m :: ms) + ads'.length + rem'.length ≤ fuel + 1 →
@@ -98,29 +96,28 @@ theorem unpackLoop_complete (fuel : Nat) : ∀ (i : Nat) (rem : List Nat) (ads :
         cases mvs with
         | nil => simp
         | cons m ms =>
-          have := single m ms [] hl (by simp at hf ⊢; omega)
+          have := single m ms [] hl (by simpa using hf)
           simp only [this.1, this.2]
       | cons a as =>
         cases mvs with
         | nil =>
           simp only
           rw [ih (i + 1) rem' as [] (by simp) (by simp [sumLens_nil] at hf ⊢; omega)]
-          simp
         | cons m ms =>
           simp only
           split
           · rw [ih (i + 1) rem' as (m :: ms) hl (by simp at hf ⊢; omega)]
-          · have := single m ms (a :: as) hl (by simp at hf ⊢; omega)
+          · have := single m ms (a :: as) hl (by simpa using hf)
             simp only [this.1, this.2]
     cases rem with
     | nil =>
       simp only [unpackLoop]
-      exact body [] (by simp)
+      exact body [] ads mvs hl (by simpa using hf)
     | cons r rs =>
       simp only [unpackLoop]
       split
       · exact ih (i + 1) rs ads mvs hl (by simp at hf; omega)
-      · exact body (r :: rs) (by simp)
+      · exact body (r :: rs) ads mvs hl (by simpa using hf)
 
 /-! ### group_adjacent_moves -/
 
@@ -145,7 +142,7 @@ theorem groupLoop_pairs (ms : List DiffOpMove) : ∀ (prev : Option DiffOpMove) 
   induction ms with
   | nil =>
     intro prev out _
-    cases prev <;> simp [groupLoop, movePairs_append, movePairs]
+    cases prev <;> simp [groupLoop, movePairs]
   | cons m ms ih =>
     intro prev out h1
     have hm := h1 m (by simp)
@@ -154,7 +151,7 @@ theorem groupLoop_pairs (ms : List DiffOpMove) : ∀ (prev : Option DiffOpMove) 
     | none =>
       simp only [groupLoop]
       rw [ih _ _ hms]
-      simp [movePairs_len_one m hm, movePairs]
+      simp [movePairs, singles, hm, List.range_succ]
     | some p =>
       simp only [groupLoop]
       split
@@ -198,10 +195,111 @@ theorem groupLoop_len_pos (ms : List DiffOpMove) : ∀ (prev : Option DiffOpMove
 
 theorem group_pairs (ms : List DiffOpMove) (h : ∀ m ∈ ms, m.len = 1) :
     movePairs (groupAdjacentMoves ms) = ms.map fun m => (m.from_, m.to_) := by
-  simp [groupAdjacentMoves, groupLoop_pairs ms none [] h, movePairs]
+  rw [groupAdjacentMoves, groupLoop_pairs ms none [] h]
+  simp [movePairs]
 
 theorem group_len_pos (ms : List DiffOpMove) (h : ∀ m ∈ ms, m.len = 1) :
     ∀ m ∈ groupAdjacentMoves ms, 1 ≤ m.len :=
   groupLoop_len_pos ms none [] (fun m hm => by simp [h m hm]) (by simp) (by simp)
+
+/-! ### the loop of `diff` -/
+
+/-- index `i` of `from` holds a key that is not in `to` -/
+def isRem (f t : List Key) (i : Nat) : Bool :=
+  match f[i]? with
+  | some k => !t.contains k
+  | none => false
+
+/-- index `i` of `to` holds a key that is not in `from` -/
+def isAdd (f t : List Key) (i : Nat) : Bool :=
+  match t[i]? with
+  | some k => !f.contains k
+  | none => false
+
+/-- index `i` of `from` holds a key that is at another index `j` of `to` -/
+def mvPair (f t : List Key) (i : Nat) : Option (Nat × Nat) :=
+  match f[i]? with
+  | some k => if f[i]? != t[i]? then (t.idxOf? k).map fun j => (i, j) else none
+  | none => none
+
+theorem contains_of_getElem? {l : List Key} {i : Nat} {k : Key} (h : l[i]? = some k) :
+    l.contains k = true := by
+  simp only [List.contains_iff_mem]
+  exact List.mem_of_getElem? h
+
+theorem diffStep_removed (f t : List Key) (acc : DiffAcc) (i : Nat) :
+    (diffStep f t acc i).removed = acc.removed ++ (if isRem f t i then [i] else []) := by
+  unfold diffStep isRem
+  cases hf : f[i]? with
+  | none =>
+    cases ht : t[i]? <;> simp
+  | some k =>
+    cases ht : t[i]? with
+    | none => simp; split <;> simp_all
+    | some k' =>
+      by_cases hk : k = k'
+      · subst hk
+        simp [List.mem_of_getElem? ht]
+      · simp [hk]; split <;> simp_all
+
+theorem diffStep_added (f t : List Key) (acc : DiffAcc) (i : Nat) :
+    (diffStep f t acc i).added
+      = acc.added ++ (if isAdd f t i then [{ at_ := i, mode := .normal }] else []) := by
+  unfold diffStep isAdd
+  cases hf : f[i]? with
+  | none =>
+    cases ht : t[i]? with
+    | none => simp
+    | some k' => simp; split <;> simp_all
+  | some k =>
+    cases ht : t[i]? with
+    | none => simp
+    | some k' =>
+      by_cases hk : k = k'
+      · subst hk
+        simp [List.mem_of_getElem? hf]
+      · simp [hk]; split <;> simp_all
+
+theorem diffStep_moved (f t : List Key) (acc : DiffAcc) (i : Nat) :
+    ∃ b, (diffStep f t acc i).moved = acc.moved ++
+      ((mvPair f t i).map fun p => ({ from_ := p.1, len := 1, to_ := p.2, moveInDom := b } : DiffOpMove)).toList := by
+  unfold diffStep mvPair
+  cases hf : f[i]? with
+  | none =>
+    cases ht : t[i]? <;> simp
+  | some k =>
+    by_cases hne : (some k != t[i]?) = true
+    · simp only [hne, if_true]
+      cases hi : List.idxOf? k t with
+      | none => simp
+      | some j => exact ⟨_, rfl⟩
+    · simp [hne]
+
+/-- what the three vectors hold after the loop has run over `0..n` -/
+theorem diffFold (f t : List Key) (n : Nat) :
+    let acc := (List.range n).foldl (diffStep f t) {}
+    acc.removed = (List.range n).filter (isRem f t) ∧
+    acc.added = ((List.range n).filter (isAdd f t)).map (fun i => { at_ := i, mode := .normal }) ∧
+    (acc.moved.map fun m => (m.from_, m.to_)) = (List.range n).filterMap (mvPair f t) ∧
+    ∀ m ∈ acc.moved, m.len = 1 := by
+  induction n with
+  | zero => simp
+  | succ n ih =>
+    simp only [List.range_succ, List.foldl_append, List.foldl_cons, List.foldl_nil]
+    obtain ⟨h1, h2, h3, h4⟩ := ih
+    refine ⟨?_, ?_, ?_, ?_⟩
+    · rw [diffStep_removed, h1]; simp [List.filter_append]; split <;> simp_all
+    · rw [diffStep_added, h2]; simp [List.filter_append]; split <;> simp_all
+    · obtain ⟨b, hb⟩ := diffStep_moved f t ((List.range n).foldl (diffStep f t) {}) n
+      rw [hb, List.map_append, h3, List.filterMap_append]
+      cases h : mvPair f t n <;> simp [h]
+    · obtain ⟨b, hb⟩ := diffStep_moved f t ((List.range n).foldl (diffStep f t) {}) n
+      rw [hb]
+      intro m hm
+      simp only [List.mem_append] at hm
+      rcases hm with hm | hm
+      · exact h4 m hm
+      · cases hp : mvPair f t n <;> simp [hp] at hm
+        subst hm; rfl
 
 end Leptos.Keyed
